@@ -11,6 +11,7 @@ PARTS = HEAD + consts('LEAD_SIZE', 'INDEX_HEADER_SIZE', 'INDEX_ENTRY_SIZE', 'HEA
     Prelude('tags.rs'),
     Prelude('getters.rs'),
     Prelude('crypto.rs'),
+    Prelude('alloc.rs'),
     Raw('pub struct Lead { pub bytes: [u8; 96] }\n'),
     Decl(PKG, 'struct', 'PackageMetadata'),
     Decl(PKG, 'struct', 'Package'),
@@ -24,7 +25,7 @@ PARTS = HEAD + consts('LEAD_SIZE', 'INDEX_HEADER_SIZE', 'INDEX_ENTRY_SIZE', 'HEA
              ('payload_digest != payload_digest_val[0]', '!str_eq(&payload_digest, &payload_digest_val[0])', None, R11),
              (re.compile(r'Error::InvalidTagValueEnumVariant\s*\{[^}]*\}'), 'Error::Other', None, 'R4-error-message'),
              ('.expect("Completely unknown payload digest algorithm")', '.unwrap()', None, 'R4-expect-message'),
-             ],
+             ] + ALLOC_RULES,
        spec='''    ensures
         r is Ok <==> digests_ok(*self),
         r is Err ==> (r->Err_0 is DigestMismatchError || (payload_recorded(*self) && payload_algo(*self) != 8)),
